@@ -13,9 +13,10 @@
    change], stream (top, retained window), epoch; Publish / Remove / key expiry /
    stream expiry / Clear by an environment thread between ANY two protocol steps.
 
-   The model is the code AS IT IS (constant Contig = FALSE) or with the proposed
-   continuity check of the stream read (Contig = TRUE).  The properties are stated
-   independently of the protocol: a REFERENCE CLIENT (cl) follows the protocol, and
+   The model is the code AS IT IS (Contig = FALSE, DropStale = FALSE) or with the two
+   proposed repairs (continuity check of stream reads; stale buffered publications
+   dropped in the live transition).  The properties are stated independently of the
+   protocol: a REFERENCE CLIENT (cl) follows the protocol, and
 
      C22   in quiescent states the client's map equals the broker's state restricted to
            the admitted keys, unless the client was explicitly told (unrecoverable
@@ -24,7 +25,16 @@
            client's position up to the reply offset;
      C16M  no delivered entry (state page, stream page, live reply, live push) is
            excluded by the tags filter; a changed server tags filter ends the
-           subscription before anything else is delivered.
+           subscription (unsubscribe 2502) before anything else is delivered.
+
+   The code as it is does NOT satisfy C22 (found by TLC, reproduced on the real code by
+   harness/mapsub): (1) a stream read that does not continue the client's position is
+   accepted when the stream expired or the position is offset 0 (history variable hz
+   gets "hole"); (2) streamless maps neither buffer nor re-read what changes while the
+   subscription is being established, and Clear is never signalled (hz gets "win" /
+   "clear").  C22Coded / C22RCoded are what TLC proves about the code as it is:
+   convergence outside those recorded windows.  The *_fixed configurations check the
+   full C22 / C22R for stream modes with the repair in the model.
 
    Thread structure = the natural gates the harness holds on the real code (the
    subscriber goroutine parks inside MapBroker calls of a wrapping broker):
@@ -82,7 +92,7 @@ VARIABLES
   tr,          \* parameters of the live transition in flight
   cl,          \* the reference client
   resubs, sfnow, refreshed,
-  hz,          \* history variable: the behaviour contains a window the code as it is does not protect (see Hazard*)
+  hz,          \* history variable: which unprotected windows of the code as it is the behaviour contains: "win", "clear", "hole"
   out,         \* frames written to the connection (history variable, not in the view)
   step
 
@@ -464,10 +474,6 @@ PosValid == HasStream => (sub.ep = epoch /\ sub.pos = top)
 C22 == (Quiescent /\ cl.ph = "live" /\ PosValid) => Converged
 \* what TLC proves about the code AS IT IS: convergence outside the unprotected windows recorded in hz
 C22Coded == C22 \/ hz # {}
-
-\* Known as-coded divergence of streamless maps (DESIGN 10.1): updates made while the subscription is being established
-\* are neither buffered nor re-read, and Clear is never signalled.  hz = the behaviour contains such an overlap.
-\* (Used only to state what TLC proves about the code as it is; the verdict on the real code uses C22 itself.)
 
 \* C22R: recovered = TRUE carries every admitted change after the requested position up to the reply offset
 Recovered(f, since) ==
